@@ -337,10 +337,17 @@ def run_paths(chk: Check, cfg: str, root: str, spellings_per_case: int, cap=None
 # Part B: start-up race on a real client
 # ---------------------------------------------------------------------------
 
-_LABEL = re.compile(r'(Choose|Wait|Mkdir|Touch|Start|Open|Finish|Abort)\((\d+)\)')
+_LABEL = re.compile(r'(Choose|Wait|Mkdir|Touch|Start|Open|Finish|Abort|Pause|IoError|Resume)\((\d+)\)')
 _STIM = {'Choose': 'start', 'Wait': 'start', 'Mkdir': 'dir', 'Touch': 'open', 'Open': 'open', 'Finish': 'finish',
-         'Abort': 'abort'}
+         'Abort': 'abort', 'Pause': 'pause', 'IoError': 'ioerr', 'Resume': 'resume'}
 FINAL_STATES = {'COMPLETE', 'FAILED', 'ABORTED', 'PAUSED', 'INCOMPLETE', 'QUEUED', 'VIRGIN'}
+
+
+def _last_resume(out, d):
+    for i in range(len(out) - 1, -1, -1):
+        if out[i] == ('resume', d):
+            return i
+    return 0
 
 
 def stimuli_of(labels):
@@ -349,26 +356,27 @@ def stimuli_of(labels):
         m = _LABEL.match(lab)
         if m and m.group(1) in _STIM:
             st = (_STIM[m.group(1)], int(m.group(2)))
-            if st[0] == 'start' and st in out:      # Wait(d) then Choose(d): the download arrives once
-                continue
+            if st[0] == 'start' and out and st in out[_last_resume(out, st[1]):]:
+                continue        # Wait(d) then Choose(d): the download arrives once (per attempt)
             out.append(st)
     return tuple(out)
 
 
-def through_first_abort(stim):
-    """The schedule up to and including its first abort (a prefix of a behaviour is a behaviour);
-    everything else is left to the drain phase, which first lets every other download arrive."""
+def through_first(stim, kind: str):
+    """The schedule up to and including its first stimulus of `kind` (a prefix of a behaviour is a
+    behaviour); everything else is left to the drain phase, which first lets every other download
+    arrive."""
     for i, st in enumerate(stim):
-        if st[0] == 'abort':
+        if st[0] == kind:
             return stim[:i + 1]
     return None
 
 
-def abort_context(stim):
-    """Who is aborted first and how far every download had got by then."""
+def first_context(stim, kind: str):
+    """Which download gets the first stimulus of `kind` and how far every download had got by then."""
     prog: dict = {}
     for what, d in stim:
-        if what == 'abort':
+        if what == kind:
             return d, tuple(sorted((k, tuple(v)) for k, v in prog.items()))
         prog.setdefault(d, []).append(what)
     return None
@@ -429,6 +437,7 @@ class RaceRunner:
             port = settings.network.listening.port
 
             transfers: list = []
+            resume_pending = [False] * n    # re-queued, neither a new choice nor a use of the old path seen yet
             log: list = []              # true order of choices (wrapper) and creations (gate releases)
             seen_snap = [snapshot(caseroot)]
 
@@ -449,6 +458,8 @@ class RaceRunner:
                     for kind, rel in snapshot(caseroot) - seen_snap[0]:
                         if _same_entry(caseroot, rel, res):
                             ob['existed'] = False
+                if d:
+                    resume_pending[d - 1] = False
                 log.append(('calc', d, remote_path, ob))
                 return res
             client.shares.calculate_download_path = observed_cdp
@@ -488,9 +499,16 @@ class RaceRunner:
                 d = next((i + 1 for i, t in enumerate(transfers) if getattr(t, '_transfer_task', None) is task), 0)
                 if d == 0:
                     return None
+                note_use(d)
                 fut = loop.create_future()
                 pending[d].append((kind, func, a, fut))
                 return fut
+
+            def note_use(d):
+                """A re-queued download works on the local path it kept (no new choice was made)."""
+                if resume_pending[d - 1] and transfers[d - 1].local_path is not None:
+                    resume_pending[d - 1] = False
+                    log.append(('using', d, observe_path(dl, sp, transfers[d - 1].local_path)))
 
             def release(d):
                 kind, func, a, fut = pending[d].pop(0)
@@ -522,12 +540,15 @@ class RaceRunner:
             class _Listener:
                 async def on_transfer_state_changed(self, transfer, old, new):
                     d = next((i + 1 for i, t in enumerate(transfers) if t is transfer), 0)
+                    if d and new.name == 'DOWNLOADING':
+                        note_use(d)
                     log.append(('state', d, new.name))
             listener = _Listener()
             for t in transfers:
                 t.state_listeners.append(listener)
+            tickets = [500 + i for i in range(n)]
             for i in range(n):
-                peers[i][1].send_message(M.PeerTransferRequest.Request(1, 500 + i, rpaths[i], self.FILESIZE))
+                peers[i][1].send_message(M.PeerTransferRequest.Request(1, tickets[i], rpaths[i], self.FILESIZE))
             await vloop.settle(loop)
             info['remote_paths'] = [r if len(r) < 120 else r[:50] + '...' + r[-50:] for r in rpaths]
             loop.executor_gate = gate
@@ -536,7 +557,8 @@ class RaceRunner:
             reported_final = [False] * n
             started = [False] * n
             sent = [False] * n
-            aborted = [False] * n
+            aborted = [False] * n           # stopped by the user (abort / pause), until re-queued
+            awaiting = [False] * n          # re-queued: the next thing reported is a choice or a resume
 
             def poll():
                 diff_fs()
@@ -547,6 +569,7 @@ class RaceRunner:
                             d = next((i + 1 for i in range(n) if not reported_choice[i] and rpaths[i] == rpath), 0)
                         if d and not reported_choice[d - 1]:
                             t = transfers[d - 1]
+                            awaiting[d - 1] = False
                             if t.local_path is not None:
                                 lp = observe_path(dl, sp, t.local_path)
                                 # Transfer.local_path is what counts; existence is the one seen at the choice
@@ -571,8 +594,19 @@ class RaceRunner:
                     elif entry[0] == 'iofail':
                         if reported_choice[entry[1] - 1]:
                             events.append(dict(ev='iofail', d=entry[1], exc=entry[3]))
-                    elif entry[0] in ('aborting', 'abort_refused'):
+                    elif entry[0] in ('aborting', 'abort_refused', 'pausing'):
                         events.append(dict(ev=entry[0], d=entry[1]))
+                    elif entry[0] == 'requeued':
+                        d = entry[1]
+                        events.append(dict(ev='requeued', d=d))
+                        reported_choice[d - 1] = reported_final[d - 1] = False
+                        awaiting[d - 1] = True
+                    elif entry[0] == 'using':
+                        _, d, ob = entry
+                        if awaiting[d - 1]:
+                            awaiting[d - 1] = False
+                            reported_choice[d - 1] = True
+                            events.append(dict(ev='resumed', d=d, rel=ob['rel'], raw=ob['raw']))
                     elif entry[0] == 'removed':
                         events.append(dict(ev='removed', rel=entry[1]))
                     elif entry[0] == 'created':
@@ -581,7 +615,7 @@ class RaceRunner:
                         events.append(dict(ev='created_outside', path=entry[1]))
                 log.clear()
                 for i, t in enumerate(transfers):
-                    if not reported_choice[i] and t.local_path is not None:
+                    if not reported_choice[i] and not awaiting[i] and t.local_path is not None:
                         # chosen without going through calculate_download_path
                         events.append(dict(ev='chosen', d=i + 1, **observe_path(dl, sp, t.local_path)))
                         reported_choice[i] = True
@@ -595,7 +629,7 @@ class RaceRunner:
                     return
                 started[d - 1] = True
                 fep = await peers[d - 1][0].dial(port, 'F')
-                fep.send(struct.pack('<I', 500 + d - 1))
+                fep.send(struct.pack('<I', tickets[d - 1]))
                 feps[d] = fep
 
             aborts = []
@@ -610,19 +644,59 @@ class RaceRunner:
                     log.append(('abort_refused', d))
                     info.setdefault('abort_errors', []).append(type(exc).__name__)
 
+            async def pause(d):
+                try:
+                    await client.transfers.pause(transfers[d - 1])
+                except asyncio.CancelledError:
+                    raise
+                except Exception as exc:     # the call raised: an observation
+                    log.append(('abort_refused', d))
+                    info.setdefault('pause_errors', []).append(type(exc).__name__)
+
+            async def resume(d):
+                """The user queues the download again; the uploader offers the file again and opens a
+                new file connection."""
+                t = transfers[d - 1]
+                if t.state.VALUE.name not in ('PAUSED', 'FAILED', 'ABORTED'):
+                    return
+                log.append(('requeued', d))
+                resume_pending[d - 1] = True
+                try:
+                    await client.transfers.queue(t)
+                except Exception as exc:     # the call raised: the download stays inactive
+                    info.setdefault('queue_errors', []).append(type(exc).__name__)
+                    return
+                await vloop.settle(loop)
+                aborted[d - 1] = started[d - 1] = sent[d - 1] = False
+                tickets[d - 1] += 100
+                peers[d - 1][1].send_message(M.PeerTransferRequest.Request(1, tickets[d - 1], rpaths[d - 1], self.FILESIZE))
+                await vloop.settle(loop)
+                await start(d)
+
             async def step(stim):
                 what, d = stim
                 if d < 1 or d > n:
                     return
                 pending[d][:] = [g for g in pending[d] if not g[3].done()]     # cancelled with their task
-                if what == 'abort':
+                if what in ('abort', 'pause'):
                     if aborted[d - 1] or transfers[d - 1].state.VALUE.name in FINAL_STATES:
                         return
                     aborted[d - 1] = True
-                    log.append(('aborting', d))
-                    aborts.append(asyncio.create_task(abort(d), name=f'harness-abort-{d}'))
+                    log.append(('aborting' if what == 'abort' else 'pausing', d))
+                    aborts.append(asyncio.create_task(abort(d) if what == 'abort' else pause(d),
+                                                      name=f'harness-{what}-{d}'))
+                elif what == 'resume':
+                    await resume(d)
                 elif aborted[d - 1]:
                     return
+                elif what == 'ioerr':
+                    # the next file-system call of the prepare step raises an OSError
+                    if pending[d]:
+                        kind, func, a, fut = pending[d].pop(0)
+                        if not fut.done():
+                            import errno
+                            fut.set_exception(OSError(errno.EIO, 'Input/output error (injected)'))
+                            log.append(('iofail', d, kind, 'OSError'))
                 elif what == 'start':
                     await start(d)
                 elif what == 'dir':
@@ -710,7 +784,7 @@ def race_schedules(chk: Check, thorough: bool):
         st = stimuli_of([e[1] for e in p])
         if not st:
             continue
-        pre = through_first_abort(st)
+        pre = through_first(st, 'abort')
         if pre and (case, pre) not in scheds:
             scheds[(case, pre)] = 'cancel3-prefix'
             npre += 1
@@ -721,6 +795,32 @@ def race_schedules(chk: Check, thorough: bool):
                                    schedules=nfull, prefixes_through_first_abort=npre)
     chk.log(f'cancel graph: {len(gc.states)} states, {len(gc.edges)} edges, {len(cpaths)} cover paths, '
             f'{nfull} schedules + {npre} prefixes ending with the first abort')
+    # interruption and resume: 2 downloads that are paused / aborted / hit an OSError anywhere in
+    # their start-up and are queued again later (design position; the run is also the model check)
+    gr, resr = tlc.dump_graph(SPEC, 'MC_resume2.cfg', parse_states='init', timeout=900, workers=1, coverage=True)
+    missing = [a for a in ('Pause', 'Abort', 'IoError', 'Resume', 'Wait', 'Touch')
+               if resr.coverage.get(a, (0, 0))[1] == 0]
+    if missing:
+        raise MachineryFailure(f'vacuity: actions never taken in MC_resume2.cfg: {missing}')
+    chk.add_model('Naming interruption + resume, 2 downloads (exhaustive, repaired design)', resr)
+    rpaths = tlc.path_cover(gr)
+    nfull = npre = 0
+    for p in rpaths:
+        case = case_of_state(gr.states[p[0][0]])
+        st = stimuli_of([e[1] for e in p])
+        if not st:
+            continue
+        pre = through_first(st, 'resume')
+        if pre and (case, pre) not in scheds:
+            scheds[(case, pre)] = 'resume2-prefix'
+            npre += 1
+        if (case, st) not in scheds:
+            scheds[(case, st)] = 'resume2'
+            nfull += 1
+    chk.cov['resume_graph'] = dict(states=len(gr.states), edges=len(gr.edges), cover_paths=len(rpaths),
+                                   schedules=nfull, prefixes_through_first_resume=npre)
+    chk.log(f'resume graph: {len(gr.states)} states, {len(gr.edges)} edges, {len(rpaths)} cover paths, '
+            f'{nfull} schedules + {npre} prefixes ending with the first resume')
     if thorough:
         behs, sres = tlc.simulate_behaviours(SPEC, 'MC_race3_graph.cfg', num=400, depth=16, seed=chk.seed + 7,
                                              timeout=900)
@@ -743,22 +843,24 @@ def run_races(chk: Check, root: str, thorough: bool):
         groups.setdefault(scheds[k], []).append(k)
     keys = []
     for src, ks in groups.items():
-        if src == 'cancel3-prefix':
+        if src in ('cancel3-prefix', 'resume2-prefix'):
             if thorough:
                 keys += ks
                 continue
-            # quick: every context of a first abort (who is aborted, how far each download got) once,
-            # the initial state (chain, pre-existing files) drawn with the seed
+            # quick: every context of a first abort / first resume (which download, how far each
+            # download had got) once, the initial state (chain, pre-existing files) drawn with the seed
+            kind = 'abort' if src == 'cancel3-prefix' else 'resume'
             chk.rng.shuffle(ks)
             seen_ctx = set()
             for k in ks:
-                ctx = abort_context(k[1])
+                ctx = first_context(k[1], kind)
                 if ctx not in seen_ctx:
                     seen_ctx.add(ctx)
                     keys.append(k)
-            chk.cov['cancel_contexts_run'] = len(seen_ctx)
+            chk.cov[src.split('-')[0].rstrip('23') + '_contexts_run'] = len(seen_ctx)
             continue
-        cap = {'cover2': 1600 if thorough else 150, 'cancel3': 2500 if thorough else 40}.get(src, 1 << 30)
+        cap = {'cover2': 1600 if thorough else 150, 'cancel3': 2500 if thorough else 40,
+               'resume2': 3000 if thorough else 40}.get(src, 1 << 30)
         if len(ks) > cap:
             # keep every distinct interleaving (stimulus sequence) at least once, then fill up
             chk.rng.shuffle(ks)
@@ -787,7 +889,11 @@ def run_races(chk: Check, root: str, thorough: bool):
     chk.cov['race_runs'] = len(traces)
     chk.cov['race_cover_schedules_run'] = sum(1 for k in keys if scheds[k] == 'cover2')
     chk.cov['cancel_schedules_run'] = sum(1 for k in keys if scheds[k].startswith('cancel3'))
+    chk.cov['resume_schedules_run'] = sum(1 for k in keys if scheds[k].startswith('resume2'))
     chk.cov['aborts_issued'] = sum(1 for t in traces for e in t if e['ev'] == 'aborting')
+    chk.cov['pauses_issued'] = sum(1 for t in traces for e in t if e['ev'] == 'pausing')
+    chk.cov['requeues_issued'] = sum(1 for t in traces for e in t if e['ev'] == 'requeued')
+    chk.cov['resumed_with_kept_path'] = sum(1 for t in traces for e in t if e['ev'] == 'resumed')
     chk.cov['race_transfers_unfinished'] = unfinished
     return traces, metas
 
@@ -808,7 +914,9 @@ def _fingerprint(tid, info, trace):
         rel = ev.get('rel') or ['']
         d = ev.get('d', 1)
         remote = case['remotes'][d - 1] if 0 < d <= len(case['remotes']) else []
-        if rel[-1] in ('.', '..', ''):
+        if any(c.startswith('?') for c in rel) and rel[0] == '..':
+            cls = 'outside-the-configured-download-directory'
+        elif rel[-1] in ('.', '..', ''):
             cls = 'dot-component-as-file-name'
         elif any(c in ('.', '..') for c in rel[:-1]):
             cls = 'dot-component-as-directory'
@@ -965,12 +1073,32 @@ def selftest(chk: Check, path_traces, race_traces):
     expect.append('reject')
     bad.append([dict(head3, files=[['n1']]), dict(ev='removed', rel=['n1'])])
     expect.append('reject')
+    # interruption + resume: a paused download whose path was never materialised goes on with it
+    # after another download was given it -> marked; twins: it chooses again / nobody took the path
+    head2 = dict(ev='case', chain='DN', files=[], dirs=[], remotes=[['n1'], ['n1']])
+    stale = [head2, a, dict(ev='pausing', d=1), dict(ev='finished', d=1), dict(a, d=2), dict(ev='created', rel=['n1']),
+             dict(ev='requeued', d=1), dict(ev='resumed', d=1, rel=['n1'])]
+    bad.append(stale)
+    expect.append('mark:resume:stale-local-path:never-created:after-pause')
+    bad.append(stale[:7] + [dict(a, d=1, rel=['n1#1']), dict(ev='created', rel=['n1#1'])])
+    expect.append('clean')
+    bad.append([head2, a, dict(ev='created', rel=['n1']), dict(ev='pausing', d=1), dict(ev='finished', d=1),
+                dict(a, d=2, rel=['n1#1']), dict(ev='requeued', d=1), dict(ev='resumed', d=1, rel=['n1'])])
+    expect.append('clean')
+    bad.append([head2, a, dict(ev='iofail', d=1), dict(ev='finished', d=1), dict(a, d=2), dict(ev='created', rel=['n1']),
+                dict(ev='requeued', d=1), dict(ev='resumed', d=1, rel=['n1'])])
+    expect.append('mark:resume:stale-local-path:never-created:after-oserror')
+    # a resumed download that had created its file and still collides is not the tolerated deviation
+    bad.append([head2, a, dict(ev='created', rel=['n1']), dict(ev='pausing', d=1), dict(ev='finished', d=1),
+                dict(a, d=2, existed=False), dict(ev='requeued', d=1), dict(ev='resumed', d=1, rel=['n1'])])
+    expect.append('reject')
     v = tlc.validate_traces(TRACE, 'Trace.cfg', [_strip(t) for t in bad], max_diag=0, workers=WORKERS, timeout=600)
     wrong = []
     for i, e in enumerate(expect):
         tid = i + 1
         good = ((e == 'reject' and tid in v.rejected) or
                 (e == 'mark' and v.accepted.get(tid) == {RACE_MARK}) or
+                (e.startswith('mark:') and v.accepted.get(tid) == {e[5:]}) or
                 (e == 'clean' and tid in v.accepted and not v.accepted[tid]))
         if not good:
             wrong.append((tid, e))
@@ -1042,6 +1170,11 @@ def run(chk: Check, args):
     chk.cov['binding_selftest']['model_with_foreign_lock_release_violates'] = teeth3
     if 'DistinctActivePaths' not in teeth3 and 'LockHeld' not in teeth3:
         raise MachineryFailure(f'foreign-release design model did not violate the properties: {teeth3}')
+    rc4 = tlc.run_tlc(SPEC, 'MC_resume2_code.cfg', timeout=900)
+    teeth4 = sorted({i.name for i in rc4.issues if i.kind == 'invariant'})
+    chk.cov['binding_selftest']['model_keeping_unmaterialised_path_violates'] = teeth4
+    if 'DistinctActivePaths' not in teeth4:
+        raise MachineryFailure(f'keep-unmaterialised-path design model did not violate DistinctActivePaths: {teeth4}')
     chk.cov['binding_selftest']['model_without_dot_sanitising_violates'] = teeth1
     chk.cov['binding_selftest']['model_with_check_then_create_violates'] = teeth2
     if not (set(teeth1) & {'Inside', 'RegularName'}) or 'DistinctActivePaths' not in teeth2:
@@ -1093,7 +1226,11 @@ def run(chk: Check, args):
         'applied last (DN, DKN, KDN): DefaultNamingStrategy alone returns an existing name by design',
         'chains without DefaultNamingStrategy never produce a file name and are outside the domain',
         'a path for which the code raises instead of choosing is a refusal and acceptable when nothing was created',
-        'a download stops being active when the user calls TransferManager.abort for it (recorded at the call) or when '
+        'part A changes settings.shares.download of one SharesManager from case to case: the configured directory is '
+        'the one set at the time of the choice',
+        'a download that is queued again is active with its old path from the moment it enters the prepare step (first '
+        'gated file-system call) or becomes DOWNLOADING without a new choice having been made',
+        'a download stops being active when the user calls TransferManager.abort / pause for it (recorded at the call) or when '
         'creating its directory / opening its file raised an OSError (seen by the harness that executes the gated call)',
         'remote paths: <= 3 components (quick; 4 sampled in thorough) over {.., ., empty, @@alias, drive letter, names}; '
         'long and non-ASCII names enter as spellings of the name kinds',
